@@ -22,8 +22,8 @@ pub struct Cfg {
     #[serde(default)]
     pub companion: bool,
     /// 0: rules loaded once. 1: a copy with every threshold + 1 is loaded first, 2: a copy with the
-    /// metric type switched to Concurrency is loaded first; no traffic in between, so the decisions
-    /// must be those of a single load
+    /// metric type switched to Concurrency is loaded first, 3: a copy with params_max_capacity 2
+    /// is loaded first; no traffic in between, so the decisions must be those of a single load
     #[serde(default)]
     pub retuned: u8,
 }
@@ -168,6 +168,17 @@ impl Subject for C06 {
             2 => {
                 hotspot::load_rules(rule_set(&self.cfg, 0, true));
             }
+            3 => {
+                let small: Vec<Arc<hotspot::Rule>> = rule_set(&self.cfg, 0, false)
+                    .into_iter()
+                    .map(|r| {
+                        let mut r = (*r).clone();
+                        r.params_max_capacity = 2;
+                        Arc::new(r)
+                    })
+                    .collect();
+                hotspot::load_rules(small);
+            }
             _ => {}
         }
         hotspot::load_rules(rule_set(&self.cfg, 0, false));
@@ -309,8 +320,9 @@ pub fn configs(thorough: bool) -> Vec<Cfg> {
                         let base = Cfg { q, b, d, overrides: overrides.clone(), keyed, phase: [0, 1, 499, 999][(k % 4) as usize], companion: false, retuned: 0 };
                         v.push(base.clone());
                         // variants: a companion rule sharing the value strings, and two-step loads
-                        let variant = if thorough { Some(k % 3) } else { Some((k / 5) % 3) };
+                        let variant = if thorough { Some(k % 4) } else { Some((k / 5) % 4) };
                         match variant {
+                            Some(3) => v.push(Cfg { companion: false, retuned: 3, ..base.clone() }),
                             Some(0) => v.push(Cfg { companion: true, retuned: 1, ..base.clone() }),
                             Some(1) => v.push(Cfg { companion: false, retuned: 2, ..base.clone() }),
                             Some(_) => v.push(Cfg { companion: true, retuned: 0, ..base.clone() }),
